@@ -1,6 +1,8 @@
 import LlgoVerif.Util
 import LlgoVerif.Model.Utf8
 import LlgoVerif.Model.Slice
+import LlgoVerif.Model.Slice64
+import LlgoVerif.Model.StrHeap
 /-! Line-protocol driver for C05 (slices and strings).  One request per line, one answer per line; the protocol is
     the one of `harness/c05/main.go.txt` (the native-copy interpreter over llgo's real runtime functions):
 
@@ -8,6 +10,9 @@ import LlgoVerif.Model.Slice
     `app r a b [cap]` | `appself r a i j [cap]` | `cp a b` | `cpself a i j` | `re r a i j k` | `clr a` | `dump` |
     `nsc newLen oldCap` | `cat H H` | `ssl H i j` | `less H H` | `eq H H` | `s2b H` | `b2s H` | `s2r H` | `r2s r,r,…` |
     `i2s N` | `u2s N` | `rune2s N` | `iter H` | `dec H k` | `enc N` | `encrange lo hi` | `rtrange lo hi` | `decgrid mode lo hi`.
+    Machine-integer layer (`Model/Slice64.lean`): `cfg64 L` | `nsc64 newLen oldCap` | `mk64 len cap esz` |
+    `grow64 len cap num esz seed` | `app64 len cap num esz seed`.  Heap-aware strings and C strings (`Model/StrHeap.lean`):
+    `hb2s H i v` | `hs2b H i v` | `hssl H i j` | `hcat A B mode` | `cstr H` | `cstrcopy H` | `fromcstr H|nil` | `sfrom H n`.
 
     The optional `[cap]` of `app`/`appself` is the capacity the real code chose when it had to grow (Go does not fix
     the growth policy); without it the model uses its own `nextslicecap`. -/
@@ -15,12 +20,14 @@ open LlgoVerif LlgoVerif.Util LlgoVerif.Slice
 
 structure St where
   cfg : Cfg := Cfg.current
+  lc : Bool := false      -- does the tree's GrowSlice test the wrapped new length (fixes/C05-3.diff)?
   mem : Mem := Mem.empty
   regs : Array (Option (Slice × Nat)) := Array.replicate 8 none
   allocs : Array (Nat × Nat) := #[]
 
 /-- extensionally the identity: re-tabulate the heap so that reads stay O(1) (executable only) -/
 def compact (m : Mem) : Mem :=
+  if m.next > 134217728 then m else      -- a heap that no process could hold (the real code went wrong): do not tabulate
   let arr : Array Nat := Array.ofFn (n := m.next + 64) fun i => m.bytes i.val
   { m with bytes := fun a => arr.getD a 0 }
 
@@ -96,6 +103,166 @@ def gridOne (d : Nat) (s : List Nat) : Nat :=
   let d := mix (mix d r.1) r.2
   mix (mix d r.1) (r.2 + 1)
 
+/-- a fresh block holding `bs` -/
+def place (m : Mem) (bs : List Nat) : Nat × Mem :=
+  let r := allocU m bs.length
+  (r.1, r.2.blit r.1 bs)
+
+def inRange (p base n : Nat) : Nat := b2i (decide (p ≠ 0 ∧ base ≤ p ∧ p < base + n))
+
+def strOf (p : Nat) (bs : List Nat) : Str := if bs.isEmpty then ⟨0, 0⟩ else ⟨p, bs.length⟩
+
+def execLimit : Nat := 67108864   -- 2^26: the native allocator stand-in records bigger requests without executing them
+
+def errStr : Err64 → String
+  | .panic => "panic"
+  | .ub => "ub"
+  | .diverge => "diverge"
+
+/-- `grow64` / `app64`: `GrowSlice64` / `SliceAppend64` on a raw header over a heap in which the source window exists -/
+def grow64 (st : St) (isApp : Bool) (l c num esz : Int) (seed : Nat) : String :=
+  if esz < 0 ∨ l < 0 ∨ c < l ∨ num < 0 then "bad-op" else
+  let small := esz > 0 ∧ c ≤ 4096 ∧ num ≤ 4096
+  if esz > 0 ∧ ¬ small ∧ ¬ (l = c ∧ c * esz ≥ 2 ^ 27 ∧ c ≤ 2 ^ 50 ∧ num ≤ 2 ^ 50) then "bad-op" else
+  let (p, dataP, m) : Nat × Nat × Mem :=
+    if small then
+      let srcBytes := (List.range (l * esz).toNat).map (pat seed) ++ List.replicate ((c - l) * esz).toNat 0
+      let (p, m1) := place Mem.empty (srcBytes ++ [0])
+      let (q, m2) := place m1 ((List.range (num * esz).toNat).map (pat (seed + 1)) ++ [0])
+      (p, q, compact m2)
+    else (1, 1, { bytes := fun _ => 0, next := 1 + (c * esz).toNat + 1 })
+  let src : Slice := ⟨p, l, c⟩
+  let res := if isApp then SliceAppend64 st.lc m src dataP num esz else GrowSlice64 st.lc m src num esz
+  match res with
+  | .error e => errStr e
+  | .ok (m', s') =>
+    let grown := s'.data ≠ p
+    let alloc := m'.next - m.next - 1
+    if grown ∧ alloc > execLimit then s!"accept alloc={alloc}"
+    else
+      let a := if grown then toString alloc else "-"
+      let d := if isApp ∧ small ∧ 0 ≤ s'.len ∧ s'.len ≤ s'.cap ∧ s'.cap * esz ≤ 65536 then
+        " d=" ++ hexN ((compact m').read s'.data (s'.len * esz).toNat) else ""
+      s!"ok len={s'.len} cap={s'.cap} sh={b2i (s'.data = p)} alloc={a}{d} ub=0"
+
+def bytesOf (h : String) : Option (List Nat) := (unhex h).map fun l => l.map (·.toNat)
+
+/-- the heap-aware string and C-string operations (each on a fresh heap) -/
+def heapOp (f : List String) : Option String :=
+  match f with
+  | ["hb2s", h, i, v] =>
+    match bytesOf h, i.toNat?, v.toNat? with
+    | some bs, some i, some v =>
+      let (p, m) := place Mem.empty bs
+      let sl : Slice := if bs.isEmpty then ⟨0, 0, 0⟩ else ⟨p, bs.length, bs.length⟩
+      match StringFromBytesH m sl with
+      | .error _ => some "ub"
+      | .ok (m1, s) =>
+        let n := bs.length
+        let (m2, al) := if n > 0 then
+            (m1.blit (p + i % n) [(bs.getD (i % n) 0) ^^^ ((v ||| 1) % 256)], inRange s.data p n) else (m1, 0)
+        some s!"ok {hexN (strBytes m2 s)} al={al} nil={b2i (s.data = 0)} ub=0"
+    | _, _, _ => none
+  | ["hs2b", h, i, v] =>
+    match bytesOf h, i.toNat?, v.toNat? with
+    | some bs, some i, some v =>
+      let (p, m) := place Mem.empty bs
+      let s := strOf p bs
+      match StringToBytesH m s with
+      | .error .panic => some "panic"
+      | .error .ub => some "ub"
+      | .ok (m1, d) =>
+        let n := d.len.toNat
+        let (m2, al) := if n > 0 then
+            (m1.blit (d.data + i % n) [(m1.bytes (d.data + i % n)) ^^^ ((v ||| 1) % 256)], inRange d.data p bs.length)
+          else (m1, 0)
+        some s!"ok s={hexN (strBytes m2 s)} d={hexN (view m2 d 1)} al={al} nil={b2i (d.data = 0)} ub=0"
+    | _, _, _ => none
+  | ["hssl", h, i, j] =>
+    match bytesOf h, parseInt i, parseInt j with
+    | some bs, some i, some j =>
+      let (p, m) := place Mem.empty bs
+      let s := strOf p bs
+      match StringSliceH s i j with
+      | .error _ => some "panic"
+      | .ok r =>
+        let off := if r.len > 0 then toString (r.data - s.data) else "-"
+        some s!"ok {hexN (strBytes m r)} off={off} ub=0"
+    | _, _, _ => none
+  | ["hcat", a, b, mode] =>
+    match bytesOf a, bytesOf b with
+    | some ab, some bb =>
+      let (pa, m1) := place Mem.empty ab
+      let (pb, m) := place m1 bb
+      let sa := strOf pa ab
+      let sb? : Option Str :=
+        if mode = "0" then some (strOf pb bb)
+        else if mode = "1" then some sa
+        else if mode = "2" then (if ab.length < 2 then none else some ⟨pa + 1, ab.length - 1⟩)
+        else none
+      match sb? with
+      | none => some "bad-op"
+      | some sb =>
+        match StringCatH m sa sb with
+        | .error .ub => some "ub"
+        | .error .panic => some "panic"
+        | .ok (m', r) =>
+          let al := if inRange r.data pa ab.length = 1 ∨ inRange r.data pb bb.length = 1 then 1 else 0
+          some s!"ok {hexN (strBytes m' r)} al={al} ub=0"
+    | _, _ => none
+  | ["cstr", h] =>
+    match bytesOf h with
+    | some bs =>
+      let (ps, m) := place Mem.empty bs
+      let s := strOf ps bs
+      match CStrDup m s with
+      | .error _ => some "ub"
+      | .ok (m1, p) =>
+        let buf := m1.read p (bs.length + 1)
+        let al1 := inRange p ps bs.length
+        match StringFromCStr m1 p with
+        | .error _ => some "ub"
+        | .ok (m2, back) =>
+          let al2 := if back.len > 0 then inRange back.data p (bs.length + 1) else 0
+          some s!"ok buf={hexN buf} back={hexN (strBytes m2 back)} al1={al1} al2={al2} nil={b2i (back.data = 0)} ub=0"
+    | none => none
+  | ["cstrcopy", h] =>
+    match bytesOf h with
+    | some bs =>
+      let (ps, m1) := place Mem.empty bs
+      let (dest, m) := place m1 (List.replicate (bs.length + 5) 0xEE)
+      match CStrCopy m dest (strOf ps bs) with
+      | .error _ => some "ub"
+      | .ok (m', ret) => some s!"ok buf={hexN (m'.read dest (bs.length + 5))} ret={b2i (ret = dest)} ub=0"
+    | none => none
+  | ["fromcstr", h] =>
+    if h = "nil" then
+      match StringFromCStr Mem.empty 0 with
+      | .error _ => some "ub"
+      | .ok (m2, t) => some s!"ok {hexN (strBytes m2 t)} al=0 nil={b2i (t.data = 0)} ub=0"
+    else
+      match bytesOf h with
+      | some bs =>
+        let (p, m) := place Mem.empty (bs ++ [0])
+        match StringFromCStr m p with
+        | .error _ => some "ub"
+        | .ok (m2, t) =>
+          let al := if t.len > 0 then inRange t.data p (bs.length + 1) else 0
+          some s!"ok {hexN (strBytes m2 t)} al={al} nil={b2i (t.data = 0)} ub=0"
+      | none => none
+  | ["sfrom", h, n] =>
+    match bytesOf h, n.toNat? with
+    | some bs, some n =>
+      if n > bs.length then some "bad-op" else
+      let (p, m) := place Mem.empty (0 :: bs ++ [0])
+      match StringFrom m (p + 1) n with
+      | .error _ => some "ub"
+      | .ok (m2, t) =>
+        let al := if t.len > 0 then inRange t.data p (bs.length + 2) else 0
+        some s!"ok {hexN (strBytes m2 t)} al={al} nil={b2i (t.data = 0)} ub=0"
+    | _, _ => none
+  | _ => none
+
 def finish (st : St) (out : String) : St × String := ({ st with mem := compact st.mem }, out)
 
 def sliceOp (st : St) (ri : Nat) (res : Except Err (Mem × Slice × Nat)) (esz : Nat) (shWith : Option Nat) : St × String :=
@@ -113,7 +280,8 @@ def handle (st : St) (line : String) : St × String :=
   let f := fields line
   match f with
   | ["cfg", z, m] => ({ st with cfg := ⟨z = "1", m = "1"⟩ }, "ok")
-  | ["reset"] => ({ cfg := st.cfg }, "ok")
+  | ["cfg64", l] => ({ st with lc := l = "1" }, "ok")
+  | ["reset"] => ({ cfg := st.cfg, lc := st.lc }, "ok")
   | ["mk", r, l, c, e, seed] =>
     match parseReg r, parseInt l, parseInt c, e.toNat?, seed.toNat? with
     | some ri, some l, some c, some esz, some seed =>
@@ -316,6 +484,32 @@ def handle (st : St) (line : String) : St × String :=
               d := gridOne d [b0, b1, b2]
       return (st, s!"ok {d}")
     | _, _, _ => (st, "bad-op")
-  | _ => (st, "bad-op")
+  | ["nsc64", a, b] =>
+    match parseInt a, parseInt b with
+    | some a, some b =>
+      match nextslicecap64 a b with
+      | some r => (st, s!"ok {r}")
+      | none => (st, "diverge")
+    | _, _ => (st, "bad-op")
+  | ["mk64", l, c, e] =>
+    match parseInt l, parseInt c, parseInt e with
+    | some l, some c, some e =>
+      match MakeSlice Mem.empty l c e with
+      | .error _ => (st, "panic")
+      | .ok (m', s) =>
+        let alloc := m'.next - 2
+        if alloc > execLimit then (st, s!"accept alloc={alloc}")
+        else (st, s!"ok len={s.len} cap={s.cap} alloc={alloc}")
+    | _, _, _ => (st, "bad-op")
+  | [op, l, c, n, e, seed] =>
+    if op = "grow64" ∨ op = "app64" then
+      match parseInt l, parseInt c, parseInt n, parseInt e, seed.toNat? with
+      | some l, some c, some n, some e, some seed => (st, grow64 st (op = "app64") l c n e seed)
+      | _, _, _, _, _ => (st, "bad-op")
+    else (st, "bad-op")
+  | _ =>
+    match heapOp f with
+    | some out => (st, out)
+    | none => (st, "bad-op")
 
 def main : IO Unit := lineLoopSt ({} : St) handle
